@@ -61,6 +61,11 @@ CHECKS = {
          "DESIGN.md §4 C14",
          "States are event histories (didOpen/didChange/didClose over 3 files and a typing ladder of texts, rename, codeLens, formatting) replayed on a fresh real LspServer running its real main loop; in every state a battery of 10 request types at token starts, line ends, beyond-end and inside-multi-byte positions must be answered, be well-formed and equal a fresh server's answers for the final buffers. Thorough runs to closure of the canonical state set; quick to depth 3.",
          "Canonical key = (buffers, digest of answers): sound because every didOpen/didChange/didClose rebuilds the server state from the buffers; a state that differs from the fresh server is reported, so merging loses nothing. Text ladder is finite. stdio framing covered by the conformance replays only."),
+ "C19": ("model_checking",
+         "stateless preemption-bounded DFS over the interleavings of the real debugger threads under a controlled scheduler (hooked scheduling points), replayable schedules",
+         "DESIGN.md §4 C19",
+         "The repository's own machine and poller threads and a harness session thread run under a baton-passing scheduler that owns every lock/atomic/channel/sleep point of the emulated-machine debug adapter. For every script over setBreakpoints/configurationDone/wait/pause/continue/next/stepIn/stepOut up to the length bound, on a straight-line, a loop and a subroutine program, all schedules with at most 1 (quick) / 2-3 (thorough) preemptions are executed; in each the reported stop address and registers are compared with the CPU, the machine must stay halted after a reported stop, breakpoints must not be skipped and steps must follow the uninterrupted instruction sequence.",
+         "Sequentially consistent interleavings at the hooked points; the harness calls the adapter methods the DAP handlers call (no TCP); recorded schedules are replayed and must reproduce the observations, a divergence is a machinery error."),
 }
 
 NOT_YET = {
